@@ -114,6 +114,7 @@ def rule_marker_parent(ctx: Ctx, prog: Program) -> None:
         nb = counters[0]
         lv = Aff.atom(("lv", nb, loop.loop_id))
         ctx.ok("R-MARKER", f"{name}: awaited markers start at len(self.solvers)")
+        done_lists = _completion_lists(prog, fn, loop)
         n_paths = 0
         for bp in loop.paths:
             mp = _message_parts(it, bp)
@@ -134,6 +135,16 @@ def rule_marker_parent(ctx: Ctx, prog: Program) -> None:
                 okk = end == lv - ONE and not [e for e in bp.events if e.kind == "yield"]
                 _mv(ctx, fn, name, okk, "marker: counter decremented by exactly one, nothing delivered", "marker-counted-once",
                     f"{name}: a completion marker must decrement the counter by exactly 1 (counter after: {show_val(end)})")
+                # the liveness test excuses workers recorded as finished: the marker path must record it, or a worker that
+                # completed normally is later reported as dead
+                for dl in done_lists:
+                    dv = as_view(s.env.get(dl))
+                    droot = dv.root if isinstance(dv, View) else dl
+                    rec = [e for e in bp.events if e.kind == "store" and e.root == droot and len(e.idx) == 1 and e.idx[0] == pid
+                           and isinstance(e.value, Aff) and e.value == ONE]
+                    _mv(ctx, fn, name, bool(rec), f"marker: the worker is recorded as finished in '{dl}' (consulted by the liveness test)", f"marker-recorded:{dl}",
+                        f"{name}: the liveness test skips workers flagged in '{dl}', but a completion marker does not set {dl}[worker id] = True: "
+                        "a worker that finished normally is reported as having died once the others stay silent for a while")
             elif isn is False:
                 okk = end == lv
                 _mv(ctx, fn, name, okk, "solution: counter unchanged", "solution-not-counted",
@@ -184,6 +195,47 @@ def rule_marker_parent(ctx: Ctx, prog: Program) -> None:
                             and as_view(args.items[0]) == View("variable_idx", ()) and it.scalar(bp.state, args.items[1]) == idx and q_ok(args.items[2])
                     _mv(ctx, fn, name, okk, "one process per solver: target = that solver's queueing entry point, args = (.., its index, the result queue)", "spawn-args",
                         f"{name}: Process(target={tgt!r}, args={args!r}) does not start solver i with its own index i and the shared result queue")
+
+
+LIVE_ATTRS = ("is_alive", "exitcode", "sentinel")
+
+
+def _completion_lists(prog: Program, fn: FuncInfo, loop: LoopSummary) -> List[str]:
+    """Names (in the parent) of per-worker lists that the liveness test reads to excuse finished workers:
+    a parameter of the message-getting helper (or a local of the parent) subscripted in a test that also queries liveness."""
+    import ast as _ast
+
+    def excusing_names(tree: _ast.AST, candidates: set) -> List[str]:
+        out: List[str] = []
+        tests: List[_ast.AST] = []
+        for n in _ast.walk(tree):
+            if isinstance(n, (_ast.If, _ast.While, _ast.IfExp)):
+                tests.append(n.test)
+            if isinstance(n, _ast.comprehension):
+                tests.extend(n.ifs)
+        for t in tests:
+            if not any(isinstance(x, _ast.Attribute) and x.attr in LIVE_ATTRS for x in _ast.walk(t)):
+                continue
+            for x in _ast.walk(t):
+                if isinstance(x, _ast.Subscript) and isinstance(x.value, _ast.Name) and x.value.id in candidates and x.value.id not in out:
+                    out.append(x.value.id)
+        return out
+
+    names: List[str] = []
+    for n in _ast.walk(loop.node):
+        if isinstance(n, _ast.Call) and isinstance(n.func, _ast.Name):
+            r = prog.resolve(fn.module, n.func.id)
+            if r and r[0] == "func":
+                g: FuncInfo = r[1]
+                for pn in excusing_names(g.node, set(g.params)):
+                    i = g.params.index(pn)
+                    if i < len(n.args) and isinstance(n.args[i], _ast.Name) and n.args[i].id not in names:
+                        names.append(n.args[i].id)
+    local_lists = {t.id for s in _ast.walk(fn.node) if isinstance(s, _ast.Assign) for t in s.targets if isinstance(t, _ast.Name)}
+    for nm in excusing_names(loop.node, local_lists):
+        if nm not in names:
+            names.append(nm)
+    return names
 
 
 def _mv(ctx: Ctx, fn: FuncInfo, name: str, okk: bool, inst: str, key: str, msg: str, rule: str = "R-MARKER") -> None:
